@@ -3,7 +3,10 @@ import St4sd.Model.Ctrl
 import St4sd.Model.CtrlSplit
 /-! Model driver for properties C01 and C02 (shared model `St4sd.Ctrl`; C01 entry point: the operations may also be
 the three parts ["finA",c] | ["finB",c] | ["finC",c] of a finished-notification handler, `St4sd.Ctrl.sstep`; the
-snapshots then carry "inflight": [[c, 1 = waits for the lock | 2 = waits for comp_done.add]] when not empty).
+snapshots then carry "inflight": [[c, 1 = waits for the lock | 2 = waits for comp_done.add]] when not empty) or
+["complete", k]: the stage-completion hook of stage k fired.  A component entry of a snapshot is
+[state, in comp_done, staged in, #launches, finishCalled, live repeating engine that has been told that its producers
+finished]).
 
 request : {"comps":[{stage,preds,isRepeat,isAgg,isRepl,shutdownOn,restartOn,maxRestarts,script}],
            "order":[..], "lastStage":k, "cont":[stages with continue-on-error],
@@ -50,6 +53,7 @@ def parseOp (j : Json) : Except String SOp := do
   | "finA" => return .finPre (← arg)
   | "finB" => return .finCrit (← arg)
   | "finC" => return .finPost (← arg)
+  | "complete" => return .complete (← arg)
   | _ => throw s!"unknown op {k}"
 
 def notifJson : Notif → Json
@@ -79,7 +83,8 @@ def snap (wf : Wf) (ss : SSt) : Json :=
   let s := ss.base
   jobj ([("comps", jarr ((comps wf).map fun c =>
             let cs := s.comp c
-            jarr [jstr (stateName cs), jbool (s.done c), jbool cs.staged, jnat cs.launches, jbool cs.finishCalled])),
+            jarr [jstr (stateName cs), jbool (s.done c), jbool cs.staged, jnat cs.launches, jbool cs.finishCalled,
+                  jbool (cs.ran && cs.exit.isNone && (wf.cdef c).isRepeat && notified s c)])),
         ("stop", jbool s.stop),
         ("stage", jnat s.cur),
         ("pending", jarr ((sortNotifs s.pending).map notifJson))] ++
@@ -108,6 +113,7 @@ def handle (j : Json) : Except String Json := do
   return jobj [("snaps", jarr snapsRev.reverse),
                ("stageDone", jbool (stageDone wf sfin)),
                ("quiescent", jbool (quiescent wf sfin)),
+               ("quiescentR", jbool (quiescentR wf sfin)),
                ("canAdvance", jbool (canAdvance wf sfin)),
                ("verdict", jstr (verdictName (verdict wf sfin))),
                ("reports", jarr (afin.2.map fun e => jarr [jnat e.1, jstr (verdictName e.2)])),
